@@ -137,7 +137,7 @@ class C03(Campaign):
                 return [{"clause": "C03.depth", "kind": "recursion", "op": n, "detail": {"exc": o["exc"]}}]
             if sc["ops"][n]["op"] != "send" or o.get("exc") or exp.get("exc"):
                 continue
-            execs = [e for e in exp["execs"] if e["event"] != "__initial__"]
+            execs = [e for e in exp["execs"] if not e.get("initial")]
             if not execs:
                 continue
             first = set(exec_values(execs[0]))
